@@ -109,6 +109,13 @@ def static_part(res):
     return names, parser
 
 
+def twin_texts_agree(a, b):
+    """b is a with '_nocancel' appended to the call NAME (the identifier before the first parenthesis) and nothing else -
+    whatever the arguments' own text contains."""
+    ia, ib = a.find('('), b.find('(')
+    return ia > 0 and ib > 0 and b[:ib] == a[:ia] + '_nocancel' and b[ib:] == a[ia:] and not a[:ia].endswith('_nocancel')
+
+
 def render(name, start, end, lookups=()):
     nested = []
     for j, p in enumerate(lookups):
@@ -162,6 +169,12 @@ def dynamic_part(res, ctx, names):
             end = domain.gen_words(rng, base, 'E')
             end[0] = rng.choice((0, 0, 0, 1, 4, 35, 60, 107, 1 << 31, (1 << 64) - 1))
             lookups = [rng.choice(H.PATHS) for _ in range(rng.choice((0, 0, 1, 2)))]
+            if k % 3 == 0:
+                # texts that look like the output's own syntax: the call's name, the suffix, separators, quotes
+                call = base[4:]
+                lookups = [rng.choice((f'/usr/bin/{call}', f'/opt/{call}_nocancel/{call}', f'{call}(', f'/tmp/a, {call}',
+                                       f'/x/_nocancel', f'/private/etc/ssl/{call}ssl.cnf')).encode()] + lookups[:1]
+                res.count('twin_renderings_with_the_call_name_in_a_path')
             try:
                 a = render(base, start, end, lookups)
                 b = render(name, start, end, lookups)
@@ -170,8 +183,7 @@ def dynamic_part(res, ctx, names):
                 break
             res.case((name, tuple(start), tuple(end), tuple(lookups)))
             res.count('twin_renderings_compared')
-            if len(a) != 1 or len(b) != 1 or b[0].replace('_nocancel', '', 1) != a[0] or '_nocancel' not in b[0] \
-                    or '_nocancel' in a[0]:
+            if len(a) != 1 or len(b) != 1 or not twin_texts_agree(a[0], b[0]):
                 res.violation('c17-twin-rendering', f'{base}: {a} vs {name}: {b} on start={start} end={end}',
                               {'name': name, 'start': start, 'end': end})
                 break
@@ -197,8 +209,7 @@ def dynamic_part(res, ctx, names):
                     break
                 res.case((name, 'sentinel', pos, w))
                 res.count('twin_sentinel_renderings_compared')
-                if len(a) != 1 or len(b) != 1 or b[0].replace('_nocancel', '', 1) != a[0] or '_nocancel' not in b[0] \
-                        or '_nocancel' in a[0]:
+                if len(a) != 1 or len(b) != 1 or not twin_texts_agree(a[0], b[0]):
                     res.violation('c17-twin-rendering', f'{base}: {a} vs {name}: {b} on start={[hex(x) for x in start]} '
                                   f'end={[hex(x) for x in end]}', {'name': name, 'start': start, 'end': end})
                     break
@@ -220,8 +231,7 @@ def dynamic_part(res, ctx, names):
                 res.count('twin_out_of_enum_comparisons')
                 a, b = outcome
                 same = (a[0] == b[0] == 'raised' and a[1] == b[1]) or \
-                       (a[0] == b[0] == 'ok' and len(a[1]) == len(b[1]) == 1 and '_nocancel' in b[1][0]
-                        and b[1][0].replace('_nocancel', '', 1) == a[1][0])
+                       (a[0] == b[0] == 'ok' and len(a[1]) == len(b[1]) == 1 and twin_texts_agree(a[1][0], b[1][0]))
                 if not same:
                     res.violation('c17-twin-rendering', f'{base} / {name} with word {idx2} = {v} (outside the named enum): '
                                   f'{a} vs {b}', {'name': name, 'start': start, 'end': end})
@@ -281,7 +291,7 @@ def front_end_twins(res, ctx, names):
                     return
                 for (base, name), a, b in zip(expect, out[0::2], out[1::2]):
                     res.case((kind, method, table is None, name))
-                    if b.replace('_nocancel', '', 1) != a or '_nocancel' not in b or '_nocancel' in a:
+                    if not twin_texts_agree(a, b):
                         res.violation('c17-twin-rendering', f'{method} on a {kind} dump: {base}: {a!r} vs {name}: {b!r}',
                                       {'file': data})
                         return
